@@ -48,6 +48,8 @@ GROUPS = {
                 modpath="notation::fen::verif_c11", crate=CORE),
     "c15r": dict(file="c15_routing.rs", into="weechess-engine/src/searcher.rs", scope=None, mod="verif_c15_routing", pub=False,
                  modpath="searcher::verif_c15_routing", crate=ENGINE),
+    "c17h": dict(file="c17_history.rs", into="weechess-engine/src/searcher.rs", scope=None, mod="verif_c17_history", pub=False,
+                 modpath="searcher::verif_c17_history", crate=ENGINE),
     "c18": dict(file="c18.rs", into="weechess-engine/src/uci.rs", scope=None, mod="verif_c18", pub=False,
                 modpath="uci::verif_c18", crate=ENGINE),
     "c11w": dict(file="c11_writer.rs", into="weechess-core/src/notation.rs", scope="mod fen", mod="verif_c11_writer", pub=True,
@@ -86,6 +88,10 @@ EXTRACTS = [
     dict(kind="fns", file="weechess-core/src/attacks.rs", scopes=["impl AttackGenerator"],
          fns=["compute_bishop_attacks", "compute_rook_attacks", "compute_queen_attacks"], out="attack_lookups_extracted.rs", substitute="mod data (slide masks, magics, widths, filled tables) -> abstract symbolic tables",
          header="impl LookUps {", footer="}"),
+    # the position history: struct and methods of StateHistory, verbatim, compiled in the harness against a model of the HashMap operations
+    dict(kind="fns", file="weechess-engine/src/searcher.rs", scopes=["impl StateHistory"], items=["struct StateHistory"], fns="*", exclude=[],
+         require=["new", "increment", "lookup"], out="state_history_extracted.rs", header="#[allow(dead_code)]\nimpl StateHistory {", footer="}",
+         substitute="std::collections::HashMap -> association-list model of new / entry().or_insert() / get"),
     # the `ucinewgame` arm of the UCI command loop, as a function over the two loop-local variables it can touch
     dict(file="weechess-engine/src/uci.rs", marker='Some((&"ucinewgame", _)) => {', out="ucinewgame_extracted.rs", substitute="the concrete type Search -> a type parameter with wait_cancel's signature",
          header="#[allow(unused_mut, unused_variables, unused_assignments)]\npub fn ucinewgame_arm<S: SearchLike>(mut current_search: Option<S>, "
@@ -492,12 +498,16 @@ PROPS["C17"] = dict(
           "symbolic position, bounds, depths", functions=["Searcher::analyze_recursive"], timeout=2400),
         K("c17", "c17_root_is_not_a_repetition", desc="at current_depth == 0 the history is not consulted; the table is probed "
           "with the position's hash and a deep exact entry is returned", functions=["Searcher::analyze_recursive"], timeout=2400),
+        K("c17h", "c17_history_is_a_faithful_multiset", kind="bounded", bound="histories of <= 3 recordings from new(); std HashMap replaced by an association-list model",
+          desc="StateHistory (struct and methods extracted verbatim): after any <= 3 increments lookup(k) is Some exactly for the recorded hashes, with their "
+          "multiplicity", functions=["StateHistory::new", "StateHistory::increment", "StateHistory::lookup"], timeout=1500),
         K("c17", "c17_root_hash_is_recorded", desc="the head of analyze_iterative (everything before the iterative-deepening loop, extracted verbatim): "
           "with a search memory handed over, the root position's hash -- computed by the memory's hasher -- is recorded in the memory's history "
           "exactly once before the first iteration", functions=["Searcher::analyze_iterative (head, extracted)"], timeout=2400),
     ],
     assumptions=[],
-    assumed_contracts=["ZobristHasher::hash (C08)", "StateHistory::{lookup,increment} are a map from hash to count (std HashMap, not executed)"],
+    assumed_contracts=["ZobristHasher::hash (C08)", "StateHistory::{lookup,increment} are a map from hash to count: checked for histories of <= 3 recordings against a model of std's HashMap "
+                       "(c17_history_is_a_faithful_multiset); for longer histories assumed (std HashMap)"],
     not_claimed=["the iterative-deepening loop of analyze_iterative itself: any harness reaching it crashes the Kani 0.68 compiler (catch_unwind "
                  "intrinsic via rayon); its head (memory taken over, root hash recorded) is extracted and under contract",
                  "the consequence in the property text (the search still reports a win and avoids the repeating move): a statement "
